@@ -178,7 +178,7 @@ def canonical_line(rng, r):
 
 def random_content(rng, regs):
     lines = []
-    for _ in range(rng.randrange(0, 12)):
+    for _ in range(fsup.nlines(rng, 12)):
         r = rng.random()
         reg = rng.choice(regs)
         ident = codec.dec_str(reg["ident"])
